@@ -3,7 +3,7 @@ import random, itertools
 
 ATOMS = ['"a"', '"b"', '"ab"', '^"a"', "'a'..'c'", "ANY", "ASCII_DIGIT", "SOI", "EOI", "NEWLINE", "b", '""']
 STACK_ATOMS = ['PUSH("a")', "PUSH(ANY)", "POP", "PEEK", "DROP", "PEEK_ALL", "POP_ALL", "PEEK[0..1]", "PEEK[-1..]", "PEEK[..]"]
-POSTFIX = ["?", "*", "+", "{2}", "{1,2}", "{,2}", "{2,}"]
+POSTFIX = ["?", "*", "+", "{2}", "{1,2}", "{,2}", "{2,}", "{2,2}", "{1,1}"]
 PREFIX = ["!", "&"]
 MODS = ["", "_", "@", "$", "!"]
 
@@ -82,6 +82,9 @@ def systematic():
     # case-insensitive literals with characters that are not letters (only ASCII letters fold)
     for s_ in ['^"a-b"', '^"_" ~ ^"[x]"', '^"1@" | ^"Z"', '^"é" ~ ANY?']:
         out.append(grammar_text(s_)); out.append(grammar_text(s_, "@", '^"B"', ""))
+    # the skip idiom with delimiters that share their first byte (the memchr arms) / of which one is a prefix of another
+    for s_ in ['(!("ab" | "ac") ~ ANY)* ~ ANY?', '(!("ac" | "ab" | "aa") ~ ANY)* ~ "a"', '(!("a" | "ab") ~ ANY)*', '(!("b" | "ab" | "ac") ~ ANY)* ~ ANY*']:
+        out.append(grammar_text(s_, "@")); out.append(grammar_text(s_, "$", '"b"', ""))
     lists = ['("a" ~ "b")* ~ "a"', '("a" ~ b)* ~ "a"', '(b ~ "a")* ~ b', '"a" ~ ("b" ~ "a")*', '(!"b" ~ ANY)*', '(!("a" | "b") ~ ANY)* ~ "a"',
              '(!("ab" | "b" | "") ~ ANY)*', '"a" ~ "b" | "a" ~ "c"', '"a" ~ "b" ~ "c" | "a" ~ "b" ~ "d" | "a"', '"a" ~ ("b" | "c" ~ "d")', '^"a" ~ ^"b"', '"a" ~ "" ~ "b"']
     for s in lists:
